@@ -29,7 +29,7 @@ B16 = os.path.join(vlib.BUILD, "c16")
 OPT_FEATURES = ["hashbrown", "indexmap", "slotmap", "smallvec", "enum-map"]
 SLOTS = 6
 
-THEOREMS = ["C16_wf_exact", "C16_all_wf", "C16_exact_every_impl", "C16_no_trace_only_static",
+THEOREMS = ["C16_wf_exact", "C16_all_wf", "C16_exact_every_impl", "C16_dyn_adapter_exact", "C16_no_trace_only_static",
             "C16_covers_named_types"]
 
 # Statement pins: a theorem cannot be quietly weakened (checked with `Check name : statement.`).
@@ -43,6 +43,11 @@ PINS = {
     (forall c, content_ok i c ->
        Permutation (sem tables_real trace_default i c) (all_pointers tables_real i c)) /\\
     (forall rho, needs_trace_val i rho = has_own tables_real i || existsb rho (collect_params i))""",
+    "C16_dyn_adapter_exact": """dyn_adapter_ok dyn_adapter_real = true /\\
+  (forall a evs, dyn_adapter_ok a = true -> through_adapter a evs = evs) /\\
+  (forall i, In i impls -> in_scope i = true ->
+     forall c, content_ok i c ->
+       Permutation (sem_dyn tables_real trace_default dyn_adapter_real i c) (all_pointers tables_real i c))""",
     "C16_no_trace_only_static": """forall i, In i impls -> in_scope i = true -> claims_no_trace i = true ->
     (self_static i = true \\/
      Forall (fun b => b_static b = true) (type_params i) \\/
@@ -286,6 +291,18 @@ def oracle(case):
     return probs
 
 
+def dyn_oracle(case):
+    """A value traced through a trait object: everything held is reported (oracle) and nothing else, no strength changed."""
+    probs = oracle(case)
+    ins = multiset(inserted_of(case))
+    for label in ("direct", "guarded"):
+        extra = [k for k, n_ in multiset(case[label]).items() if ins.get(k, 0) < n_]
+        if extra and not probs:
+            probs.append(("through the trait object, %s reports %s which the value does not hold with that strength" % (
+                "Collect::trace" if label == "direct" else "Trace::trace(&value)", fmt_ptrs(extra)), extra))
+    return probs
+
+
 def fmt_ptrs(ps):
     return ", ".join("%s pointer #%d" % ("strong" if s == "S" else "weak", i) for (i, s) in ps)
 
@@ -478,7 +495,7 @@ def counts_for(tier):
     return [0, 1, 2, 3, 4, 17] if tier == "quick" else [0, 1, 2, 3, 4, 5, 8, 17, 33, 100]
 
 
-def run(chk, tier, seed):
+def _run(chk, tier, seed):
     chk.trusted = TRUSTED
     chk.rule = ("every in-scope `unsafe impl Collect` of the working tree is wf_impl (vm_compute over the regenerated "
                 "list) => by C16_wf_exact its trace is a permutation of all pointers held, for contents of every size; "
@@ -557,6 +574,7 @@ def run(chk, tier, seed):
     counts = counts_for(tier)
     all_cases = {}       # key -> (case, [sets])
     exercised_by_set, gaps, violations = {}, {}, []
+    dyn_all = {}
     n_eval = 0
     for name, feats in sets:
         okb, binp, blog = builds[name]
@@ -597,8 +615,18 @@ def run(chk, tier, seed):
                 all_cases[key][1].append(name)
             else:
                 all_cases[key] = (c, [name])
+        # the object-safe adapter (DynCollect / dyn_collect!): the same oracle, plus exactness (nothing extra, no
+        # strength changed) -- a weak pointer reported as strong through a trait object retains its target (C02),
+        # one not reported at all lets its target be freed under the holder (C05)
+        dcases = [r for r in recs if r.get("kind") == "dyncase"]
+        n_eval += 2 * len(dcases)
+        for c in dcases:
+            for (desc, ptrs) in dyn_oracle(c):
+                violations.append((c, name, desc, ptrs))
+            dyn_all.setdefault(json.dumps([c["impl"], renumber(c)], sort_keys=True), c)
         # survival
-        rc, recs, raw = run_harness(binp, "survive", seed)
+        rc, recs2, raw = run_harness(binp, "survive", seed)
+        recs = recs2
         sv = [r for r in recs if r.get("kind") == "survive"]
         n_eval += len(sv)
         probs = [(r["impl"], r["problems"]) for r in sv if r["problems"]]
@@ -663,6 +691,32 @@ def run(chk, tier, seed):
                            "on %d distinct contents (vm_compute)" % len(case_list), not mism, detail)
         n_eval += 3 * len(case_list)
 
+    # the adapter read from the source, applied to what the value holds = what the real tracer recorded
+    if dyn_all:
+        dl = list(dyn_all.values())
+        lines = ["From Coq Require Import List String Bool.", "From GACollect Require Import ModelDSL.",
+                 "From GACollect.Gen Require Import GenCollectImpls.", "Import ListNotations.",
+                 "Definition ev_eqb (a b : pointer) : bool := Nat.eqb (fst a) (fst b) && match snd a, snd b with Strong, Strong | Weak, Weak => true | _, _ => false end.",
+                 "Fixpoint count (x : pointer) (l : list pointer) : nat := match l with [] => 0 | y :: r => (if ev_eqb x y then 1 else 0) + count x r end.",
+                 "Definition same (a b : list pointer) : bool := Nat.eqb (List.length a) (List.length b) && forallb (fun x => Nat.eqb (count x a) (count x b)) a.",
+                 "Definition dyn_cases : list (list pointer * list pointer) := ["]
+        rows = []
+        for c in dl:
+            rc_ = renumber(c)
+            rows.append("  (%s, %s)" % (coq_ptrs(inserted_of(rc_)), coq_ptrs(rc_["direct"])))
+        lines.append(";\n".join(rows) + "].")
+        lines.append("Eval vm_compute in (map (fun p => same (through_adapter dyn_adapter_real (fst p)) (snd p)) dyn_cases).")
+        rcd, dout = coqc_gen("GenDynCases.v", "\n".join(lines) + "\n")
+        flags = re.findall(r"\b(true|false)\b", dout.split("=", 1)[1]) if (rcd == 0 and "=" in dout) else []
+        okd = rcd == 0 and len(flags) == len(dl) and all(f == "true" for f in flags)
+        bad = [dl[k]["impl"] for k, f in enumerate(flags) if f != "true"]
+        chk.correspondence("through_adapter dyn_adapter_real (pointers held) = real trace through the trait object on %d distinct dyn cases (vm_compute)" % len(dl),
+                           okd, ("mismatching: %s" % bad) if rcd == 0 else dout[-2000:])
+        chk.cov["dyn_adapter_cases"] = sorted(set(c["impl"] for c in dl))
+        n_eval += len(dl)
+    else:
+        chk.correspondence("the harness produced trait-object (dyn adapter) cases", False, "no dyncase records")
+
     # translator Unknown with no failing input found: a broken obligation (fail closed)
     if unknown_impls and proof_ok:
         # cannot happen (Unknown makes wf_impl false), kept as a guard
@@ -690,6 +744,63 @@ def run(chk, tier, seed):
         chk.obligation("coqchk GACollect.Props.C16", okc, cout[-2000:])
 
 
+class _locked:
+    """Inter-process lock around coq-collect/ and the harness build dirs (C01/C02/C05 use this check as a premise)."""
+    def __enter__(self):
+        import fcntl
+        os.makedirs(B16, exist_ok=True)
+        self.fh = open(os.path.join(B16, "c16.lock"), "w")
+        fcntl.flock(self.fh, fcntl.LOCK_EX)
+        return self
+
+    def __exit__(self, *a):
+        import fcntl
+        fcntl.flock(self.fh, fcntl.LOCK_UN)
+        self.fh.close()
+        return False
+
+
+def _premise_path(tier, seed):
+    key = vlib.repo_hash(extra=[vlib.tree_hash([os.path.join(HARN_DIR, "src"), os.path.join(HARN_DIR, "Cargo.toml.in")] + [os.path.join(COQ_DIR, f) for f in ("ModelDSL.v", "ModelTables.v", "Proofs.v", "TableProofs.v", "ExampleValues.v", "Props/C16.v")] + [
+                                                 os.path.join(vlib.VERIF, "translator-collect", "src"), os.path.abspath(__file__)])])
+    return os.path.join(B16, "premise-%s-%s-%s.json" % (key[:20], tier, seed))
+
+
+def _summary(chk):
+    return {"obligations": [(n, ok, (d or "")[:1500]) for (n, ok, d) in chk.obligs],
+            "correspondence": [(n, ok, (d or "")[:1500]) for (n, ok, d) in chk.corrs],
+            "violations": [{"desc": v["desc"], "replay": v["replay"], "key": v.get("key")} for v in chk.viols],
+            "evaluations": chk.evaluations}
+
+
+def run(chk, tier, seed):
+    with _locked():
+        _run(chk, tier, seed)
+        try:
+            with open(_premise_path(tier, seed), "w") as f:
+                json.dump(_summary(chk), f)
+        except OSError:
+            pass
+
+
+def premise(tier, seed):
+    """The outcome of this check on the current tree, for the collector-core properties whose theorems ASSUME that
+    tracing reports exactly the pointers a value holds (C01, C02, C05).  Cached by content of /repo and of this engine."""
+    pp = _premise_path("quick", seed)
+    with _locked():
+        if os.path.exists(pp):
+            return json.load(open(pp))
+        scratch = vlib.Check("C16", "quick", seed)
+        _run(scratch, "quick", seed)
+        res = _summary(scratch)
+        for f in os.listdir(B16):
+            if f.startswith("premise-") and os.path.getmtime(os.path.join(B16, f)) < time.time() - 3600:
+                os.remove(os.path.join(B16, f))
+        with open(pp, "w") as f:
+            json.dump(res, f)
+        return res
+
+
 def replay(path):
     txt = open(path).read()
     print(txt)
@@ -705,9 +816,9 @@ def replay(path):
         return 1
     bad = 0
     print("---- re-running the recording tracer for %s on the current tree (%s) ----" % (iid, vlib.REPO))
-    _rc, recs, _raw = run_harness(binp, "twin", seed, counts_for("quick"), only=iid)
-    for c in [r for r in recs if r.get("kind") == "case"]:
-        for (desc, _p) in oracle(c):
+    _rc, recs, _raw = run_harness(binp, "twin", seed, counts_for("quick"), only=("dyn" if "dyn:" in iid else iid))
+    for c in [r for r in recs if r.get("kind") in ("case", "dyncase")]:
+        for (desc, _p) in (dyn_oracle(c) if c["kind"] == "dyncase" else oracle(c)):
             bad += 1
             if bad <= 3:
                 print(describe_case(c, setname))
